@@ -10,6 +10,7 @@
 #include <dispenso/task_set.h>
 #include <dispenso/thread_pool.h>
 #include <cstring>
+#include <unistd.h>
 
 namespace {
 
@@ -49,6 +50,21 @@ struct ManualInvoker {
 
 struct Tagged {
   int tag;
+};
+
+// Start gate. Helper threads are spawned first and park at model level (a parked thread is not
+// schedulable, so the set-up that follows is explored with a single runnable harness thread);
+// T0 waits until all of them are parked, builds the objects, then opens the gate.
+struct Gate {
+  mc::Shared<int> parked{0}, open_{0};
+  void park() {
+    parked.add(1);
+    mc::block_until([&] { return open_.get() != 0; });
+  }
+  void wait_parked(int n) {
+    mc::block_until([&] { return parked.get() >= n; });
+  }
+  void open() { open_.set(1); }
 };
 
 // set around every timed wait of the calling thread; the functors look at it
@@ -231,7 +247,7 @@ void get_program(GetCtx& c, dispenso::Future<typename K::R>& h, const dispenso::
 }
 
 template <class K>
-void fget_body(const mc::Params& P) {
+void fget_impl(const mc::Params& P) {
   typedef typename K::R R;
   typedef dispenso::Future<R> Fut;
   std::string sched = P.s("sched", "pool");
@@ -247,24 +263,33 @@ void fget_body(const mc::Params& P) {
     std::unique_ptr<dispenso::ConcurrentTaskSet> cts;
     ManualInvoker manual;
     Fut orig, forc;
-    mc::Shared<int> go{0};
+    Gate gate;
+    int helpers = (pb != "-") + (pc != "-") + (sched == "man");
     // B, C and the manual completer exist before the pool does, parked at model level: the pool's
     // start-up is then explored with one runnable harness thread instead of three.
     if (pb != "-") mc::spawn([&] {
-      mc::block_until([&] { return go.get() != 0; });
+      gate.park();
       Fut mine(orig); // B copies the handle A is using
       get_program<K>(c, mine, orig, pb, deferred);
     });
     if (pc != "-") mc::spawn([&] {
-      mc::block_until([&] { return go.get() != 0; });
+      gate.park();
       Fut mine(std::move(forc)); // C owns a copy that T0 made before releasing it
       get_program<K>(c, mine, orig, pc, deferred);
     });
     if (sched == "man") mc::spawn([&] {
-      mc::block_until([&] { return go.get() != 0; });
+      gate.park();
       manual.run(); // the completer: exactly one OnceFunction call
     });
+    gate.wait_parked(helpers);
     if (sched == "pool" || sched == "ts" || sched == "cts") pool.reset(new dispenso::ThreadPool((size_t)n));
+    // park=1: a quiet period first. A timed sleep expires only when nothing else can run, i.e. when every
+    // worker is parked in its futex wait; the future is then handed to a sleeping pool (placed path: claim a
+    // sleeper, push to its steal ring, wake it). park=0: the workers are still starting up (central queue).
+    if (pool && n > 0 && P("park", 1)) {
+      usleep(50000);
+      mc::cover("pool_parked");
+    }
     if (sched == "pool")
       orig = Fut(mk(), *pool, apol_of(pol), dpol_of(pol));
     else if (sched == "ts") {
@@ -284,7 +309,7 @@ void fget_body(const mc::Params& P) {
     MC_CHECK(orig.valid(), "a constructed Future is not valid()");
     if (pc != "-") forc = orig;
 
-    go.set(1); // B, C and the completer were parked (not schedulable) while the pool started
+    gate.open(); // B, C and the completer were parked (not schedulable) while the pool started
     {
       Fut& mine = orig;
       std::string prog;
@@ -318,18 +343,743 @@ void fget_body(const mc::Params& P) {
   }
 }
 
+
+// =================================================================================================
+// C19: then()
+// =================================================================================================
+// params
+//   comp   how the antecedent completes: man (a completer thread invokes its OnceFunction), pool (a parked
+//          ThreadPool(n) worker), pre (ready before then() is called), self (nobody: only get()/wait() on a
+//          continuation's future can pull it through, deferred)
+//   ts     schedulable given to then(): imm | pool | ts | cts | nt
+//   pol    policies given to then(): bit0 async, bit1 deferred
+//   b, c   number of continuations registered by T0 ("B") and by a second thread ("C"), 0..2
+//   use    what the registering thread does with the returned future:
+//            b  nothing - it blocks (model level) until the continuation has run: a lost link is a deadlock
+//            g  get(): may pull the continuation (and the antecedent) through inline
+//            z  wait_for(0) then b
+//   chain  1: T0's first continuation gets a continuation of its own
+//   akind  val | thr : the antecedent returns 41 / throws Tagged{7}
+struct ThenCtx {
+  mc::Shared<int> ante_calls{0}, ante_finished{0};
+  mc::Shared<int> ran[8];
+  mc::Shared<int> done[8];
+  bool ante_throws = false;
+  int ante() {
+    int prev = ante_calls.add(1);
+    MC_CHECK(prev == 0, "the antecedent's functor was invoked a second time");
+    mc::point();
+    ante_finished.set(1);
+    if (ante_throws) throw Tagged{7};
+    return 41;
+  }
+  // body of continuation `id`
+  int cont(int id, dispenso::Future<int>&& a) {
+    int prev = ran[id].add(1);
+    MC_CHECK(prev == 0, "continuation %d was invoked a second time", id);
+    MC_CHECK(a.valid(), "continuation %d received an invalid future", id);
+    MC_CHECK(a.is_ready(), "continuation %d started while its antecedent is not ready", id);
+    MC_CHECK(ante_finished.get() == 1, "continuation %d started before the antecedent's functor finished", id);
+    int v = -1, tag = -1;
+    try {
+      v = a.get();
+    } catch (const Tagged& t) {
+      tag = t.tag;
+    }
+    if (ante_throws)
+      MC_CHECK(tag == 7, "continuation %d: antecedent.get() did not rethrow", id);
+    else
+      MC_CHECK(v == 41, "continuation %d saw antecedent value %d instead of 41", id, v);
+    mc::point();
+    done[id].set(1);
+    return 100 + id;
+  }
+  // continuation of a continuation
+  int cont2(int id, int parent, dispenso::Future<int>&& a) {
+    int prev = ran[id].add(1);
+    MC_CHECK(prev == 0, "continuation %d was invoked a second time", id);
+    MC_CHECK(a.is_ready(), "continuation %d started while its antecedent (continuation %d) is not ready", id, parent);
+    MC_CHECK(done[parent].get() == 1, "continuation %d started before continuation %d finished", id, parent);
+    MC_CHECK(a.get() == 100 + parent, "continuation %d saw the wrong antecedent value", id);
+    done[id].set(1);
+    return 100 + id;
+  }
+};
+
+struct ThenEnv {
+  std::unique_ptr<dispenso::ThreadPool> pool;
+  std::unique_ptr<dispenso::TaskSet> ts;
+  std::unique_ptr<dispenso::ConcurrentTaskSet> cts;
+  std::string tsched;
+  long pol = 2;
+  template <class F>
+  dispenso::Future<int> then(dispenso::Future<int>& f, F&& fn) {
+    std::launch a = apol_of(pol), d = dpol_of(pol);
+    if (tsched == "imm") return f.then(std::forward<F>(fn), dispenso::kImmediateInvoker, a, d);
+    if (tsched == "pool") return f.then(std::forward<F>(fn), *pool, a, d);
+    if (tsched == "ts") return f.then(std::forward<F>(fn), *ts, a, d);
+    if (tsched == "cts") return f.then(std::forward<F>(fn), *cts, a, d);
+    if (tsched == "nt") return f.then(std::forward<F>(fn), dispenso::kNewThreadInvoker, a, d);
+    mc::fail("harness: unknown then-schedulable");
+    return dispenso::Future<int>();
+  }
+};
+
+void use_then_future(ThenCtx& c, dispenso::Future<int>& r, int id, char use, bool deferred) {
+  MC_CHECK(r.valid(), "then() returned an invalid future");
+  if (use == 'z') {
+    t_in_timed_wait = id + 1;
+    std::future_status st = r.wait_for(std::chrono::seconds(0));
+    t_in_timed_wait = 0;
+    if (st == std::future_status::ready) MC_CHECK(c.done[id].get() == 1, "wait_for: then-future %d ready before its continuation finished", id);
+    (void)deferred;
+  }
+  if (use == 'g') {
+    int v = r.get();
+    MC_CHECK(c.done[id].get() == 1, "get() on then-future %d returned before its continuation finished", id);
+    MC_CHECK(v == 100 + id, "then-future %d holds %d", id, v);
+    mc::cover("then_get");
+  } else {
+    mc::block_until([&] { return c.done[id].get() == 1; }); // nobody pulls: the chain itself must deliver
+    mc::block_until([&] { return status_of(r) == 2; });
+    MC_CHECK(r.is_ready(), "then-future %d not ready after its continuation finished", id);
+  }
+}
+
+void fthen_impl(const mc::Params& P) {
+  std::string comp = P.s("comp", "man");
+  long n = P("n", 1), nb = P("b", 1), nc = P("c", 0);
+  std::string use = P.s("use", "b");
+  bool chain = P("chain", 0) != 0;
+  ThenCtx c;
+  c.ante_throws = P.s("akind", "val") == "thr";
+  ThenEnv env;
+  env.tsched = P.s("ts", "imm");
+  env.pol = P("pol", 2);
+  bool deferred = (env.pol & 2) != 0;
+  bool used_nt = env.tsched == "nt";
+  {
+    ManualInvoker manual;
+    Gate gate;
+    dispenso::Future<int> ante;
+    std::vector<dispenso::Future<int>> held; // then-futures, destroyed before the schedulables
+    held.reserve(8);
+    mc::Shared<int> regs_done{0};
+    int helpers = (nc > 0) + (comp == "man");
+    if (nc > 0) mc::spawn([&] {
+      gate.park();
+      dispenso::Future<int> mine(ante);
+      std::vector<dispenso::Future<int>> my;
+      my.reserve(2);
+      for (int k = 0; k < nc; k++) {
+        int id = 4 + k;
+        my.push_back(env.then(mine, [&c, id](dispenso::Future<int>&& a) { return c.cont(id, std::move(a)); }));
+      }
+      for (int k = 0; k < nc; k++) use_then_future(c, my[k], 4 + k, use[0], deferred);
+      regs_done.add(1);
+    });
+    if (comp == "man") mc::spawn([&] {
+      gate.park();
+      manual.run();
+    });
+    gate.wait_parked(helpers);
+    bool need_pool = comp == "pool" || env.tsched == "pool" || env.tsched == "ts" || env.tsched == "cts";
+    if (need_pool) {
+      env.pool.reset(new dispenso::ThreadPool((size_t)n));
+      if (n > 0 && P("park", 1)) usleep(50000);
+    }
+    if (env.tsched == "ts") env.ts.reset(new dispenso::TaskSet(*env.pool));
+    if (env.tsched == "cts") env.cts.reset(new dispenso::ConcurrentTaskSet(*env.pool));
+    auto mk = [&c] { return [&c]() -> int { return c.ante(); }; };
+    if (comp == "man" || comp == "self")
+      ante = dispenso::Future<int>(mk(), manual, dispenso::kNotAsync, std::launch::deferred);
+    else if (comp == "pool")
+      ante = dispenso::Future<int>(mk(), *env.pool, std::launch::async, std::launch::deferred);
+    else if (comp == "pre")
+      ante = dispenso::Future<int>(mk(), dispenso::kImmediateInvoker);
+    else
+      mc::fail("harness: unknown comp");
+    gate.open();
+    for (int k = 0; k < nb; k++)
+      held.push_back(env.then(ante, [&c, k](dispenso::Future<int>&& a) { return c.cont(k, std::move(a)); }));
+    if (chain && nb > 0)
+      held.push_back(env.then(held[0], [&c](dispenso::Future<int>&& a) { return c.cont2(2, 0, std::move(a)); }));
+    if (comp == "self") {
+      // nobody completes the antecedent: only a get() can pull the whole chain through
+      MC_CHECK(nb > 0, "harness: comp=self needs b>0");
+      int last = chain ? 2 : 0;
+      int v = held[chain ? (size_t)nb : 0].get();
+      MC_CHECK(v == 100 + last, "get() through an unstarted chain returned %d", v);
+      mc::cover("pulled_through");
+    }
+    if (env.ts) {
+      env.ts->wait();
+      mc::cover("taskset_wait");
+      for (size_t k = 0; k < held.size(); k++) MC_CHECK(held[k].is_ready(), "TaskSet::wait() returned but then-future %zu (registered with the set) is not ready", k);
+    }
+    for (int k = 0; k < nb; k++) use_then_future(c, held[(size_t)k], k, use[0], deferred);
+    if (chain && nb > 0) use_then_future(c, held[(size_t)nb], 2, use[0], deferred);
+    mc::join_all();
+    if (env.cts) {
+      env.cts->wait();
+      mc::cover("taskset_wait");
+      for (size_t k = 0; k < held.size(); k++) MC_CHECK(held[k].is_ready(), "ConcurrentTaskSet::wait() returned but then-future %zu is not ready", k);
+    }
+    ante.wait();
+    if (comp == "self") manual.run(); // the stored OnceFunction still holds a reference: invoke it (no-op run)
+    env.ts.reset();
+    env.cts.reset();
+    env.pool.reset();
+    if (used_nt) drain_new_threads();
+    MC_CHECK(c.ante_calls.get() == 1, "the antecedent's functor ran %d times", c.ante_calls.get());
+    int total = 0;
+    for (int k = 0; k < nb; k++) {
+      MC_CHECK(c.ran[k].get() == 1, "continuation %d ran %d times", k, c.ran[k].get());
+      total++;
+    }
+    for (int k = 0; k < nc; k++) {
+      MC_CHECK(c.ran[4 + k].get() == 1, "continuation %d ran %d times", 4 + k, c.ran[4 + k].get());
+      total++;
+    }
+    if (chain && nb > 0) MC_CHECK(c.ran[2].get() == 1, "chained continuation ran %d times", c.ran[2].get());
+    for (size_t k = 0; k < held.size(); k++) {
+      MC_CHECK(held[k].is_ready(), "then-future %zu not ready at the end", k);
+      MC_CHECK(refs_of(held[k]) == 1, "then-future %zu: reference count %d at quiescence with one live handle", k, refs_of(held[k]));
+    }
+    MC_CHECK(ante.impl_->thenChain_.a_.load(std::memory_order_relaxed) == nullptr, "then-chain not empty at quiescence");
+    mc::observe("conts", total);
+  }
+}
+
+// =================================================================================================
+// C19: when_all / when_any
+// =================================================================================================
+// params
+//   op    all | any        form  it | tup        set   none | ts | cts  (task-set variant, pool of n threads)
+//   in    one letter per input (k = length, 0..3; "-" = none): r make_ready_future, i ImmediateInvoker (ready),
+//         m manual (completed by a completer thread), p pool future (async on the set's/own pool)
+//   ord   order in which the manual inputs are completed, e.g. 021;  split=1: one completer thread per input
+//   use   g  T0 calls get() on the result (may run the combinator inline and pull inputs through)
+//         w  T0 calls set.wait() first (task-set variants), then checks is_ready()
+//         b  T0 blocks (model level) until the result is ready: only the then-callbacks can deliver it
+//   obs   1: an observer thread with its own copy polls is_ready() once and, if true, checks the oracle
+//   strict 1: also require the result state's reference count to be exact at quiescence (see notes: fails
+//         for when_any when the inline path claims the winner)
+struct WhenCtx {
+  int k = 0;
+  mc::Shared<int> calls[4], finished[4];
+  int input(int i) {
+    int prev = calls[i].add(1);
+    MC_CHECK(prev == 0, "input %d: functor invoked a second time", i);
+    mc::point();
+    finished[i].set(1);
+    return 10 + i;
+  }
+};
+typedef dispenso::Future<int> FI;
+typedef std::vector<FI> VecFI;
+
+void check_all_it(WhenCtx& c, const dispenso::Future<VecFI>& res, const char* who) {
+  const VecFI& v = res.get();
+  MC_CHECK((int)v.size() == c.k, "%s: when_all result holds %zu futures for %d inputs", who, v.size(), c.k);
+  for (int i = 0; i < c.k; i++) {
+    MC_CHECK(v[(size_t)i].valid(), "%s: when_all result element %d is invalid", who, i);
+    MC_CHECK(v[(size_t)i].is_ready(), "%s: when_all result is ready but input %d is not", who, i);
+    MC_CHECK(c.finished[i].get() == 1, "%s: when_all result is ready but input %d's functor has not finished", who, i);
+    MC_CHECK(v[(size_t)i].get() == 10 + i, "%s: when_all result element %d is not input %d", who, i, i);
+  }
+}
+template <class Tuple, size_t I>
+struct TupCheck {
+  static void go(WhenCtx& c, const Tuple& t, const char* who) {
+    TupCheck<Tuple, I - 1>::go(c, t, who);
+    const FI& f = std::get<I - 1>(t);
+    int i = (int)I - 1;
+    MC_CHECK(f.valid(), "%s: when_all tuple element %d is invalid", who, i);
+    MC_CHECK(f.is_ready(), "%s: when_all result is ready but input %d is not", who, i);
+    MC_CHECK(c.finished[i].get() == 1, "%s: when_all result is ready but input %d's functor has not finished", who, i);
+    MC_CHECK(f.get() == 10 + i, "%s: when_all tuple element %d is not input %d", who, i, i);
+  }
+};
+template <class Tuple>
+struct TupCheck<Tuple, 0> {
+  static void go(WhenCtx&, const Tuple&, const char*) {}
+};
+template <class Tuple>
+void check_all_tup(WhenCtx& c, const dispenso::Future<Tuple>& res, const char* who) {
+  const Tuple& t = res.get();
+  TupCheck<Tuple, std::tuple_size<Tuple>::value>::go(c, t, who);
+}
+void check_any(WhenCtx& c, const VecFI& inputs, const dispenso::Future<size_t>& res, const char* who) {
+  size_t idx = res.get();
+  if (c.k == 0) {
+    MC_CHECK(idx == SIZE_MAX, "%s: when_any over no inputs returned %zu, documented SIZE_MAX", who, idx);
+    return;
+  }
+  MC_CHECK(idx != SIZE_MAX, "%s: when_any over %d inputs returned SIZE_MAX", who, c.k);
+  MC_CHECK(idx < (size_t)c.k, "%s: when_any returned index %zu with %d inputs", who, idx, c.k);
+  MC_CHECK(inputs[idx].is_ready(), "%s: when_any returned index %zu but that input is not ready", who, idx);
+  MC_CHECK(c.finished[idx].get() == 1, "%s: when_any returned index %zu whose functor has not finished", who, idx);
+  mc::observe("winner", (long)idx);
+}
+
+struct WhenEnv {
+  std::unique_ptr<dispenso::ThreadPool> pool;
+  std::unique_ptr<dispenso::TaskSet> ts;
+  std::unique_ptr<dispenso::ConcurrentTaskSet> cts;
+};
+
+// Res = result future type; make(env, inputs) builds it; check(res, who) is the oracle
+template <class Res, class Make, class Check>
+void fwhen_run(const mc::Params& P, WhenCtx& c, Make make, Check check) {
+  std::string in = P.s("in", "mm");
+  if (in == "-") in = "";
+  std::string ord = P.s("ord", "");
+  std::string set = P.s("set", "none"), use = P.s("use", "g");
+  long n = P("n", 1);
+  bool split = P("split", 0) != 0, obs = P("obs", 0) != 0, strict = P("strict", 0) != 0;
+  c.k = (int)in.size();
+  std::vector<int> order;
+  for (char ch : ord) order.push_back(ch - '0');
+  if (order.empty())
+    for (int i = 0; i < c.k; i++)
+      if (in[(size_t)i] == 'm') order.push_back(i);
+  {
+    WhenEnv env;
+    ManualInvoker manual[4];
+    Gate gate;
+    VecFI inputs;
+    inputs.reserve(4);
+    Res res, res_obs;
+    int helpers = 0;
+    if (split) {
+      for (int i : order) {
+        helpers++;
+        mc::spawn([&, i] {
+          gate.park();
+          manual[i].run();
+        });
+      }
+    } else if (!order.empty()) {
+      helpers++;
+      mc::spawn([&] {
+        gate.park();
+        for (int i : order) manual[i].run();
+      });
+    }
+    mc::Shared<int> obs_go{0};
+    if (obs) mc::spawn([&] {
+      mc::block_until([&] { return obs_go.get() != 0; });
+      if (res_obs.is_ready()) {
+        check(res_obs, "observer");
+        mc::cover("observer_saw_ready");
+      }
+      res_obs = Res();
+    });
+    gate.wait_parked(helpers);
+    bool need_pool = set != "none" || in.find('p') != std::string::npos;
+    if (need_pool) {
+      env.pool.reset(new dispenso::ThreadPool((size_t)n));
+      if (n > 0 && P("park", 1)) usleep(50000);
+    }
+    if (set == "ts") env.ts.reset(new dispenso::TaskSet(*env.pool));
+    if (set == "cts") env.cts.reset(new dispenso::ConcurrentTaskSet(*env.pool));
+    int readyv[4] = {10, 11, 12, 13};
+    for (int i = 0; i < c.k; i++) {
+      auto fn = [&c, i]() -> int { return c.input(i); };
+      switch (in[(size_t)i]) {
+        case 'r':
+          c.calls[i].set(1);
+          c.finished[i].set(1);
+          inputs.push_back(dispenso::make_ready_future(readyv[i]));
+          break;
+        case 'i':
+          inputs.push_back(FI(std::move(fn), dispenso::kImmediateInvoker));
+          break;
+        case 'm':
+          inputs.push_back(FI(std::move(fn), manual[i], dispenso::kNotAsync, std::launch::deferred));
+          break;
+        case 'p':
+          inputs.push_back(FI(std::move(fn), *env.pool, std::launch::async, std::launch::deferred));
+          break;
+        default:
+          mc::fail("harness: unknown input kind");
+      }
+    }
+    bool early = P("early", 0) != 0; // completers start before the combinator is built
+    if (early) gate.open();
+    res = make(env, inputs);
+    MC_CHECK(res.valid(), "the combinator returned an invalid future");
+    if (obs) {
+      res_obs = res;
+      obs_go.set(1);
+    }
+    if (!early) gate.open();
+    if (use == "w" && env.ts) {
+      env.ts->wait();
+      MC_CHECK(res.is_ready(), "TaskSet::wait() returned but the combinator's result is not ready");
+      mc::cover("taskset_wait_first");
+    } else if (use == "w" && env.cts) {
+      env.cts->wait();
+      MC_CHECK(res.is_ready(), "ConcurrentTaskSet::wait() returned but the combinator's result is not ready");
+      mc::cover("taskset_wait_first");
+    } else if (use == "b") {
+      mc::block_until([&] { return status_of(res) == 2; });
+      mc::cover("delivered_by_callbacks");
+    }
+    check(res, "T0");
+    mc::join_all();
+    for (int i = 0; i < c.k; i++) inputs[(size_t)i].wait(); // losers of when_any complete too
+    if (env.ts) env.ts->wait();
+    if (env.cts) env.cts->wait();
+    MC_CHECK(res.is_ready(), "result not ready at the end");
+    env.ts.reset();
+    env.cts.reset();
+    env.pool.reset();
+    for (int i = 0; i < c.k; i++) {
+      MC_CHECK(c.calls[i].get() == 1, "input %d ran %d times", i, c.calls[i].get());
+      if (in[(size_t)i] == 'm' && manual[i].has.get() != 0) manual[i].run();
+    }
+    check(res, "T0 at quiescence");
+    int rc = refs_of(res);
+    if (rc != 1) {
+      mc::cover("result_state_refcount_off_at_quiescence");
+      mc::observe("refcount", rc);
+      if (strict) MC_CHECK(false, "combinator result: reference count %d at quiescence with exactly one live handle (its state is never freed)", rc);
+    }
+  }
+}
+
+template <size_t K>
+struct TupOf;
+template <>
+struct TupOf<1> {
+  typedef std::tuple<FI> type;
+};
+template <>
+struct TupOf<2> {
+  typedef std::tuple<FI, FI> type;
+};
+template <>
+struct TupOf<3> {
+  typedef std::tuple<FI, FI, FI> type;
+};
+
+template <class... A>
+dispenso::Future<std::tuple<typename std::decay<A>::type...>> call_all(WhenEnv& e, A&&... a) {
+  if (e.ts) return dispenso::when_all(*e.ts, std::forward<A>(a)...);
+  if (e.cts) return dispenso::when_all(*e.cts, std::forward<A>(a)...);
+  return dispenso::when_all(std::forward<A>(a)...);
+}
+template <class... A>
+dispenso::Future<size_t> call_any(WhenEnv& e, A&&... a) {
+  if (e.ts) return dispenso::when_any(*e.ts, std::forward<A>(a)...);
+  if (e.cts) return dispenso::when_any(*e.cts, std::forward<A>(a)...);
+  return dispenso::when_any(std::forward<A>(a)...);
+}
+
+template <size_t K>
+void fwhen_all_tup(const mc::Params& P, WhenCtx& c);
+template <>
+void fwhen_all_tup<1>(const mc::Params& P, WhenCtx& c) {
+  typedef dispenso::Future<TupOf<1>::type> Res;
+  fwhen_run<Res>(P, c, [](WhenEnv& e, VecFI& in) { return call_all(e, in[0]); }, [&c](const Res& r, const char* who) { check_all_tup(c, r, who); });
+}
+template <>
+void fwhen_all_tup<2>(const mc::Params& P, WhenCtx& c) {
+  typedef dispenso::Future<TupOf<2>::type> Res;
+  fwhen_run<Res>(P, c, [](WhenEnv& e, VecFI& in) { return call_all(e, in[0], in[1]); }, [&c](const Res& r, const char* who) { check_all_tup(c, r, who); });
+}
+template <>
+void fwhen_all_tup<3>(const mc::Params& P, WhenCtx& c) {
+  typedef dispenso::Future<TupOf<3>::type> Res;
+  fwhen_run<Res>(P, c, [](WhenEnv& e, VecFI& in) { return call_all(e, in[0], in[1], in[2]); }, [&c](const Res& r, const char* who) { check_all_tup(c, r, who); });
+}
+
+void fwhen_impl(const mc::Params& P) {
+  std::string op = P.s("op", "all"), form = P.s("form", "it"), in = P.s("in", "mm");
+  if (in == "-") in = "";
+  size_t k = in.size();
+  WhenCtx c;
+  if (op == "all" && form == "it") {
+    typedef dispenso::Future<VecFI> Res;
+    fwhen_run<Res>(
+        P, c,
+        [](WhenEnv& e, VecFI& inp) -> Res {
+          if (e.ts) return dispenso::when_all(*e.ts, inp.begin(), inp.end());
+          if (e.cts) return dispenso::when_all(*e.cts, inp.begin(), inp.end());
+          return dispenso::when_all(inp.begin(), inp.end());
+        },
+        [&c](const Res& r, const char* who) { check_all_it(c, r, who); });
+  } else if (op == "all") {
+    if (k == 0) {
+      typedef dispenso::Future<std::tuple<>> Res;
+      fwhen_run<Res>(
+          P, c,
+          [](WhenEnv& e, VecFI&) -> Res {
+            if (e.ts) return dispenso::when_all(*e.ts);
+            if (e.cts) return dispenso::when_all(*e.cts);
+            return dispenso::when_all();
+          },
+          [](const Res& r, const char*) { (void)r.get(); });
+    } else if (k == 1)
+      fwhen_all_tup<1>(P, c);
+    else if (k == 2)
+      fwhen_all_tup<2>(P, c);
+    else
+      fwhen_all_tup<3>(P, c);
+  } else if (op == "any") {
+    typedef dispenso::Future<size_t> Res;
+    VecFI* seen = nullptr;
+    auto chk = [&c, &seen](const Res& r, const char* who) { check_any(c, *seen, r, who); };
+    if (form == "it")
+      fwhen_run<Res>(
+          P, c,
+          [&seen](WhenEnv& e, VecFI& inp) -> Res {
+            seen = &inp;
+            if (e.ts) return dispenso::when_any(*e.ts, inp.begin(), inp.end());
+            if (e.cts) return dispenso::when_any(*e.cts, inp.begin(), inp.end());
+            return dispenso::when_any(inp.begin(), inp.end());
+          },
+          chk);
+    else
+      fwhen_run<Res>(
+          P, c,
+          [&seen, k](WhenEnv& e, VecFI& inp) -> Res {
+            seen = &inp;
+            if (k == 0) {
+              if (e.ts) return dispenso::when_any(*e.ts);
+              if (e.cts) return dispenso::when_any(*e.cts);
+              return dispenso::when_any();
+            }
+            if (k == 1) return call_any(e, inp[0]);
+            if (k == 2) return call_any(e, inp[0], inp[1]);
+            return call_any(e, inp[0], inp[1], inp[2]);
+          },
+          chk);
+  } else
+    mc::fail("harness: unknown op");
+}
+
+// =================================================================================================
+// C20
+// =================================================================================================
+// Virtual time: mc::now_ns() reads the clock without advancing it; steady_clock::now()/system_clock::now()
+// advance it by 10 us and return now_ns()+1 s. A timed futex wait expires by jumping the clock to its deadline.
+constexpr int64_t kEpochNs = 1000000000LL;
+
+template <class Rep, class Per>
+int64_t as_ns(std::chrono::duration<Rep, Per> d) {
+  return std::chrono::duration_cast<std::chrono::nanoseconds>(d).count();
+}
+
+// one timed wait on `ev`; returns what the API returned, after checking the C20 oracle
+// api: for | fors (duration in seconds as double) | until (steady_clock) | untilsys (system_clock)
+bool timed_wait_event(const dispenso::CompletionEvent& ev, const std::string& api, int64_t d, mc::Shared<int>& notified) {
+  bool r;
+  int64_t t0 = (int64_t)mc::now_ns(), abs_ns = 0;
+  if (api == "for")
+    r = ev.waitFor(std::chrono::nanoseconds(d));
+  else if (api == "fors")
+    r = ev.waitFor(std::chrono::duration<double>((double)d * 1e-9));
+  else if (api == "until") {
+    auto abs = std::chrono::steady_clock::now() + std::chrono::nanoseconds(d);
+    abs_ns = as_ns(abs.time_since_epoch());
+    r = ev.waitUntil(abs);
+  } else {
+    auto abs = std::chrono::system_clock::now() + std::chrono::nanoseconds(d);
+    abs_ns = as_ns(abs.time_since_epoch());
+    r = ev.waitUntil(abs);
+  }
+  int64_t t1 = (int64_t)mc::now_ns();
+  bool complete = ev.impl_.status_.a_.load(std::memory_order_relaxed) == 1;
+  if (r) {
+    MC_CHECK(complete && notified.get() == 1, "timed wait returned true but the event is not completed");
+    MC_CHECK(ev.completed(), "completed() false after a timed wait returned true");
+    mc::cover("ev_true");
+  } else {
+    if (api == "for" || api == "fors")
+      MC_CHECK(t1 - t0 >= d, "waitFor(%lld ns) returned false after only %lld ns", (long long)d, (long long)(t1 - t0));
+    else
+      MC_CHECK(t1 + kEpochNs >= abs_ns, "waitUntil returned false %lld ns before the requested time point", (long long)(abs_ns - t1 - kEpochNs));
+    mc::cover(complete ? "ev_false_although_completed_by_then" : "ev_false");
+  }
+  mc::observe("ret", r ? 1 : 0);
+  return r;
+}
+
+// params: api (for|fors|until|untilsys), d (ns, may be negative), d1 (second waiter's duration; absent = one
+// waiter), notif: before | during | never
+void cev_timed_impl(const mc::Params& P) {
+  std::string api = P.s("api", "for"), notif = P.s("notif", "during");
+  int64_t d = P("d", 1000000);
+  dispenso::CompletionEvent ev;
+  mc::Shared<int> notified{0};
+  if (notif == "before") {
+    notified.set(1);
+    ev.notify();
+  }
+  if (P.has("d1")) {
+    int64_t d1 = P("d1", 0);
+    mc::spawn([&, d1] { timed_wait_event(ev, api, d1, notified); });
+  }
+  if (notif == "during") mc::spawn([&] {
+    notified.set(1);
+    ev.notify();
+  });
+  bool r = timed_wait_event(ev, api, d, notified);
+  if (notif == "before") MC_CHECK(r || d > 0, "harness: unreachable"); // (no demand: documented only as 'whichever is first')
+  mc::join_all();
+}
+
+// Future timed waits.
+// params
+//   sched  man | pool | nt | imm      ctor  ctor (Future constructor, two policy arguments) | fn (dispenso::async)
+//   pol    bit0 async, bit1 deferred  api   for | until
+//   d      ns                         when  ready | during | blocked | never  (state of the functor, man only)
+//   w2     1: a second waiter thread with the same call
+struct TimedCtx {
+  mc::Shared<int> calls{0}, started{0}, finished{0}, ran_in_timed{0}, waiters_done{0};
+  int nwaiters = 1;
+  bool hold = false;
+  int body() {
+    int prev = calls.add(1);
+    MC_CHECK(prev == 0, "the functor was invoked a second time");
+    if (t_in_timed_wait) ran_in_timed.set(1);
+    started.set(1);
+    if (hold) mc::block_until([&] { return waiters_done.get() >= nwaiters; }); // "running" for the whole wait
+    mc::point();
+    finished.set(1);
+    return 41;
+  }
+};
+
+void timed_wait_future(TimedCtx& c, const dispenso::Future<int>& f, const std::string& api, int64_t d, bool deferred) {
+  std::future_status st;
+  int64_t t0 = (int64_t)mc::now_ns(), abs_ns = 0;
+  bool started_before = c.calls.get() != 0;
+  t_in_timed_wait = 1;
+  if (api == "for")
+    st = f.wait_for(std::chrono::nanoseconds(d));
+  else {
+    auto abs = std::chrono::steady_clock::now() + std::chrono::nanoseconds(d);
+    abs_ns = as_ns(abs.time_since_epoch());
+    st = f.wait_until(abs);
+  }
+  t_in_timed_wait = 0;
+  int64_t t1 = (int64_t)mc::now_ns();
+  bool ready_now = status_of(f) == 2;
+  MC_CHECK(st == std::future_status::ready || st == std::future_status::timeout, "unexpected future_status %d", (int)st);
+  if (st == std::future_status::ready) {
+    MC_CHECK(ready_now && c.finished.get() == 1, "timed wait reported ready but the functor has not finished");
+    MC_CHECK(f.is_ready(), "is_ready() false after a timed wait reported ready");
+    MC_CHECK(f.get() == 41, "wrong value after a timed wait reported ready");
+    mc::cover("fut_ready");
+  } else {
+    if (api == "for")
+      MC_CHECK(t1 - t0 >= d, "wait_for(%lld ns) reported timeout after only %lld ns", (long long)d, (long long)(t1 - t0));
+    else
+      MC_CHECK(t1 + kEpochNs >= abs_ns, "wait_until reported timeout %lld ns before the requested time point", (long long)(abs_ns - t1 - kEpochNs));
+    mc::cover(ready_now ? "fut_timeout_although_ready_by_then" : "fut_timeout");
+  }
+  if (!started_before && c.ran_in_timed.get() != 0) {
+    // some timed wait ran the functor on its own thread
+    MC_CHECK(deferred, "a timed wait ran the not-yet-started functor although the future was created without std::launch::deferred");
+    mc::cover("timed_wait_ran_functor");
+  }
+  mc::observe("status", (long)st);
+}
+
+void fut_timed_impl(const mc::Params& P) {
+  std::string sched = P.s("sched", "man"), ctor = P.s("ctor", "ctor"), api = P.s("api", "for"), when = P.s("when", "during");
+  long pol = P("pol", 2), n = P("n", 1);
+  int64_t d = P("d", 1000000);
+  bool w2 = P("w2", 0) != 0;
+  bool deferred = (pol & 2) != 0;
+  TimedCtx c;
+  c.nwaiters = w2 ? 2 : 1;
+  c.hold = when == "blocked";
+  {
+    std::unique_ptr<dispenso::ThreadPool> pool;
+    ManualInvoker manual;
+    Gate gate;
+    dispenso::Future<int> f;
+    int helpers = 0;
+    if (sched == "man") {
+      helpers++;
+      mc::spawn([&] {
+        gate.park();
+        if (when == "never") mc::block_until([&] { return c.waiters_done.get() >= c.nwaiters; });
+        manual.run();
+      });
+    }
+    if (w2) {
+      helpers++;
+      mc::spawn([&] {
+        gate.park();
+        dispenso::Future<int> mine(f);
+        if (when == "ready") mc::block_until([&] { return status_of(mine) == 2; });
+        if (when == "blocked") mc::block_until([&] { return c.started.get() == 1; });
+        timed_wait_future(c, mine, api, d, deferred);
+        c.waiters_done.add(1);
+      });
+    }
+    gate.wait_parked(helpers);
+    if (sched == "pool") {
+      pool.reset(new dispenso::ThreadPool((size_t)n));
+      if (n > 0 && P("park", 1)) usleep(50000);
+    }
+    auto mk = [&c] { return [&c]() -> int { return c.body(); }; };
+    std::launch both = (std::launch)((int)apol_of(pol) | (int)dpol_of(pol));
+    if (ctor == "fn") {
+      // dispenso::async(schedulable, policy, f): one policy bitmask, documented like std::async's
+      if (sched == "pool")
+        f = dispenso::async(*pool, both, mk());
+      else if (sched == "nt")
+        f = dispenso::async(dispenso::kNewThreadInvoker, both, mk());
+      else
+        mc::fail("harness: ctor=fn needs sched=pool|nt");
+      mc::cover("made_by_async_fn");
+    } else if (sched == "man")
+      f = dispenso::Future<int>(mk(), manual, apol_of(pol), dpol_of(pol));
+    else if (sched == "pool")
+      f = dispenso::Future<int>(mk(), *pool, apol_of(pol), dpol_of(pol));
+    else if (sched == "nt")
+      f = dispenso::Future<int>(mk(), dispenso::kNewThreadInvoker, apol_of(pol), dpol_of(pol));
+    else if (sched == "imm")
+      f = dispenso::Future<int>(mk(), dispenso::kImmediateInvoker, apol_of(pol), dpol_of(pol));
+    else
+      mc::fail("harness: unknown sched");
+    gate.open();
+    if (when == "ready") mc::block_until([&] { return status_of(f) == 2; });
+    if (when == "blocked") mc::block_until([&] { return c.started.get() == 1; });
+    timed_wait_future(c, f, api, d, deferred);
+    c.waiters_done.add(1);
+    mc::join_all();
+    f.wait();
+    pool.reset();
+    if (sched == "nt") drain_new_threads();
+    MC_CHECK(c.calls.get() == 1, "the functor ran %d times", c.calls.get());
+    MC_CHECK(refs_of(f) == 1, "reference count %d at quiescence with one live handle", refs_of(f));
+  }
+}
 } // namespace
 
 MC_HARNESS(fget) {
   std::string kind = P.s("kind", "val");
   if (kind == "val")
-    fget_body<ValKind>(P);
+    fget_impl<ValKind>(P);
   else if (kind == "ref")
-    fget_body<RefKind>(P);
+    fget_impl<RefKind>(P);
   else if (kind == "void")
-    fget_body<VoidKind>(P);
+    fget_impl<VoidKind>(P);
   else if (kind == "thr")
-    fget_body<ThrowKind>(P);
+    fget_impl<ThrowKind>(P);
   else
     mc::fail("harness: unknown kind");
 }
+
+MC_HARNESS(fthen) { fthen_impl(P); }
+MC_HARNESS(fwhen) { fwhen_impl(P); }
+MC_HARNESS(cev_timed) { cev_timed_impl(P); }
+MC_HARNESS(fut_timed) { fut_timed_impl(P); }
